@@ -422,13 +422,41 @@ def rule_n6(F):
     r = RuleResult("C17.N6", "StringBuf: only the push methods obtain mutable access to the shared buffer; readers leave it as it is", floor=4)
     bodies = [b for b in F.bodies_in(["src/value/string_buf.rs"]) if b.mir and "::tests::" not in b.path]
     pushes = 0
-    for b in bodies:
-        name = hir.last(b.path.split("::{closure")[0])
-        writes = []
+    MUTATORS = ("push", "push_str", "clear", "truncate", "drain", "insert", "insert_str", "remove", "pop", "retain", "extend", "replace_range", "as_mut_str", "as_mut_vec",
+                "as_mut", "get_mut", "split_off", "shrink_to", "shrink_to_fit", "make_ascii_lowercase", "make_ascii_uppercase", "append")
+
+    def direct_writes(b):
+        out = []
         for bi, t in mir.calls(b):
             d = mir.callee_def(t) or ""
             if d.endswith("DerefMut::deref_mut") or d in ("std::mem::take", "std::mem::replace", "std::mem::swap") or hir.last(d) in ("get_mut", "clear", "truncate", "drain"):
-                writes.append((hir.last(d), t.get("line")))
+                out.append((hir.last(d), t.get("line")))
+        return out
+
+    # a helper that locks and hands the buffer to a closure of its caller (`with_locked(|buf| ..)`): the access is the closure's, and
+    # it is judged where the closure is written
+    providers = set()
+    for b in bodies:
+        if "{closure" in b.path or not direct_writes(b):
+            continue
+        if any(("FnOnce::call_once" in (mir.callee_def(t) or "") or "FnMut::call_mut" in (mir.callee_def(t) or "") or "Fn::call" in (mir.callee_def(t) or "")) for _, t in mir.calls(b)) \
+                and not hir.last(b.path).startswith("push"):
+            providers.add(b.path)
+    for b in bodies:
+        name = hir.last(b.path.split("::{closure")[0])
+        if b.path in providers:
+            r.inst("StringBuf::%s" % name, {"fn": b.path, "hands_the_locked_buffer_to_a_closure_of_its_caller": True})
+            continue
+        writes = direct_writes(b)
+        # what the closures of this method do with a buffer they are handed
+        if "{closure" in b.path:
+            parent = F.body(b.path.split("::{closure")[0])
+            via_provider = parent is not None and parent.mir and any((mir.callee(t) or "") in providers for _, t in mir.calls(parent))
+            if via_provider:
+                for bi, t in mir.calls(b):
+                    d = mir.callee_def(t) or ""
+                    if (hir.last(d) in MUTATORS and ("String" in d or "str" in d or "Vec" in d)) or d in ("std::mem::take", "std::mem::replace", "std::mem::swap"):
+                        writes.append((hir.last(d), t.get("line")))
         writer = name.startswith("push")
         pushes += 1 if (writer and writes) else 0
         r.inst("StringBuf::%s" % name, {"fn": b.path, "mutable_access": [w[0] for w in writes], "is_push_method": writer})
